@@ -502,7 +502,7 @@ pub fn run(ctx: &mut Ctx) {
 			ctx,
 			fam,
 			n,
-			|| (gen::arb_container_value(gen::ValueCfg { depth: 5, width: 5, dup_keys: true, big_numbers: false }), gen::arb_choices()),
+			|| (prop_oneof![6 => gen::arb_container_value(gen::ValueCfg { depth: 5, width: 5, dup_keys: true, big_numbers: false }), 1 => gen::arb_large_value(true)], gen::arb_choices()),
 			|(v, ch)| {
 				let text = gen::render_doc(v, ch, gen::RenderCfg::FREE);
 				match property(&text) {
